@@ -197,3 +197,11 @@ Theorem cum_le_sum_of_values : forall K keqb div kept ss n,
   cum_spec K keqb div kept ss n <= sumf K (pick K div) ss.
 Proof. exact cum_le_sum_lemma. Qed.
 Print Assumptions cum_le_sum_of_values.
+
+(* an entry that occurs in every sample -- the common root of a profile -- has cum equal to the sum
+   of all sample values (cum 100% for non-negative values), whatever else the stacks contain *)
+Theorem cum_of_common_entry_is_sum : forall K keqb div ss r,
+  (forall s, In s ss -> memK K keqb r (keys K s) = true) ->
+  cum_spec K keqb div None ss r = sumf K (pick K div) ss.
+Proof. exact cum_of_common_entry_lemma. Qed.
+Print Assumptions cum_of_common_entry_is_sum.
